@@ -329,6 +329,9 @@ def units(tier, seed):
     us.append({"kind": "accept", "n": 2, "first": list(range(len(kinds)))})
     for ch in chunks(list(range(len(kinds))), 40):
         us.append({"kind": "accept", "n": 3, "first": ch})
+    if tier == "thorough":
+        for i in range(len(TYPES)):
+            us.append({"kind": "accept4", "first": i})
     us.append({"kind": "accept-web"})
     us.append({"kind": "accept-misc"})
     return us
@@ -386,6 +389,24 @@ def run_unit(unit, ctx):
                     else:
                         ctx.count("validated")
         ctx.sample({"kind": "accept", "header": render(((TYPES[8], None), (TYPES[3], "0.5")), (" ", "", ""))})
+    elif k == "accept4":
+        # thorough: all headers of 4 distinct media types x q in {absent, 0.5, 0.9} x 2 whitespace patterns
+        kinds4 = [(t, q) for t in TYPES for q in (None, "0.5", "0.9")]
+        t0 = TYPES[unit["first"]]
+        for q0 in (None, "0.5", "0.9"):
+            for rest in it.product(kinds4, repeat=3):
+                combo = ((t0, q0),) + rest
+                if len({t for t, _ in combo}) < 4:
+                    continue
+                for ows in (("", "", ""), (" ", " ", " ")):
+                    fails, header = check_header(combo, ows)
+                    ctx.count("headers")
+                    ctx.count("headers_with_4_elements")
+                    ctx.count("evaluations")
+                    if fails:
+                        ctx.violation("C18/" + fails[0][0], fails[0][1], {"kind": "accept", "elements": [list(e) for e in combo], "ows": list(ows)})
+                    else:
+                        ctx.count("validated")
     elif k == "accept-web":
         kinds = [(t, q) for t in TYPES for q in (None, "0.5")]
         n = 0
@@ -424,6 +445,24 @@ def replay(case):
         f, _ = check_header(tuple(tuple(e) for e in case["elements"]), tuple(case["ows"]), case.get("param"))
         if case.get("param"):
             f = [(s_.replace("accept/", "accept/with-media-type-parameter/"), m_) for s_, m_ in f]
+    elif k == "accept4":
+        # thorough: all headers of 4 distinct media types x q in {absent, 0.5, 0.9} x 2 whitespace patterns
+        kinds4 = [(t, q) for t in TYPES for q in (None, "0.5", "0.9")]
+        t0 = TYPES[unit["first"]]
+        for q0 in (None, "0.5", "0.9"):
+            for rest in it.product(kinds4, repeat=3):
+                combo = ((t0, q0),) + rest
+                if len({t for t, _ in combo}) < 4:
+                    continue
+                for ows in (("", "", ""), (" ", " ", " ")):
+                    fails, header = check_header(combo, ows)
+                    ctx.count("headers")
+                    ctx.count("headers_with_4_elements")
+                    ctx.count("evaluations")
+                    if fails:
+                        ctx.violation("C18/" + fails[0][0], fails[0][1], {"kind": "accept", "elements": [list(e) for e in combo], "ows": list(ows)})
+                    else:
+                        ctx.count("validated")
     elif k == "accept-web":
         f = check_header_via_web(case["header"])
     else:
